@@ -26,11 +26,12 @@ DIMS = {
     "outline": ["ell", "tri", "blob", "quad", "oval", "ring"],
     "stack": ["base", "one", "three", "three_rev", "four"],
     "place": ["t", "id", "r90", "r180", "r30", "r45", "r1", "mx", "my", "md", "s2", "s05", "nu", "nu2", "sk", "out", "tiny", "tinycopy", "near", "off05", "far"],
-    "donor_paint": ["red", "rgba", "rgba_op", "named", "omitted", "opacity", "current", "current_op", "var", "var_op"],
+    "donor_paint": ["red", "rgba", "rgba_op", "named", "omitted", "omitted_op", "opacity", "current", "current_op", "var", "var_op"],
     "copy_paint": ["blue", "same", "black", "alpha", "current", "var", "lin_bbox", "lin_user", "rad_bbox", "rad_focal_fr"],
     "twin": ["none", "same_glyph", "cross_glyph"],
     "shared_grad": [False, True],
     "grad_twice": [False, True],
+    "vb_b": ["same", "wide", "offset", "half"],
     "lin_vec": ["bbox_h", "diag", "vert", "pct", "short", "user"],
     "lin_gt": ["none", "rot", "nonuniform", "skew", "translate", "involutory", "rotscale"],
     "lin_spread": ["pad", "repeat", "reflect"],
@@ -89,6 +90,8 @@ def relevant(dev):
         return False  # ... and the blob's
     if dev.get("shared_grad") and (any(k.startswith("lin_") or k.startswith("rad_") for k in dev) or dev.get("twin", "none") != "none" or dev.get("nglyphs") == 1 or dev.get("stack") == "one"):
         return False
+    if dev.get("vb_b", "same") != "same" and dev.get("nglyphs") == 1:
+        return False
     if dev.get("grad_twice") and dev.get("stack") == "one" and dev.get("nglyphs") == 1:
         return False
     if dev.get("grp") == "emptyglyph" and dev.get("nglyphs") == 1:
@@ -132,12 +135,20 @@ def mk(a):
     vb = viewbox(a)
     k = min(vb[2], vb[3]) / 100.0
     ox, oy = vb[0], vb[1]
-    S = lambda m: aff.mul((1, 0, 0, 1, ox, oy), aff.mul(aff.sc(k), m))  # design box -> viewBox
 
-    def P(d, m=aff.I, nd=3):
-        return place(d, S(m), nd)
+    def frame(box):
+        """design box -> a viewBox: (k, ox, oy, P: outline placer, U: design-box point in user space)"""
+        k_ = min(box[2], box[3]) / 100.0
+        ox_, oy_ = box[0], box[1]
+        S_ = lambda m: aff.mul((1, 0, 0, 1, ox_, oy_), aff.mul(aff.sc(k_), m))
+        return k_, ox_, oy_, (lambda d, m=aff.I, nd=3: place(d, S_(m), nd)), (lambda x, y: (x * k_ + ox_, y * k_ + oy_))
 
-    U = lambda x, y: (x * k + ox, y * k + oy)  # a design-box point in user space
+    _, _, _, P, U = frame(vb)
+    # glyph B may live in another viewBox: wider with the same height, shifted, or half the size (its artwork is
+    # scaled with it, so in font space it is as large as before and still congruent to glyph A's shapes)
+    vbB = {"same": vb, "wide": (vb[0], vb[1], vb[2] * 1.5, vb[3]), "offset": (vb[0] - 0.13 * vb[2], vb[1] + 0.09 * vb[3], vb[2], vb[3]),
+           "half": (vb[0], vb[1], vb[2] / 2, vb[3] / 2)}[a.get("vb_b", "same")]
+    kB, oxB, oyB, PB, UB = frame(vbB)
 
     # --- linear gradient on the blob (glyph A, second shape) -------------------------
     lv = a["lin_vec"]
@@ -160,10 +171,10 @@ def mk(a):
               "stopop": [(0, "yellow", 0.3), (1, "green", 0.9)]}[a["rad_stops"]]
     rg = a["rad_geom"]
     if rg in ("user", "user_focal"):
-        cx, cy = U(65, 65)
-        fx, fy = U(60, 60) if rg == "user_focal" else (None, None)
-        rad = Radial("rg1", cx, cy, 22 * k, rstops, fx=fx, fy=fy, units="userSpaceOnUse",
-                     gt=_gt(a["rad_gt"], cx, cy, unit=100 * k), spread=a["rad_spread"])
+        cx, cy = UB(65, 65)
+        fx, fy = UB(60, 60) if rg == "user_focal" else (None, None)
+        rad = Radial("rg1", cx, cy, 22 * kB, rstops, fx=fx, fy=fy, units="userSpaceOnUse",
+                     gt=_gt(a["rad_gt"], cx, cy, unit=100 * kB), spread=a["rad_spread"])
     else:
         kw = {"c": {}, "focal": dict(fx=0.3, fy=0.4), "fr": dict(fx=0.45, fy=0.5, fr=0.05), "rpct": {}}[rg]
         r = {"c": 0.5, "focal": 0.5, "fr": 0.3, "rpct": "40%"}[rg]
@@ -173,25 +184,28 @@ def mk(a):
     od = OUT[a["outline"]]
     dp = a["donor_paint"]
     donor_paint = {
-        "red": Solid("red"), "rgba": Solid("#FF000080"), "rgba_op": Solid("#FF000080"), "named": Solid("wheat"), "omitted": Solid("black"),
+        "red": Solid("red"), "rgba": Solid("#FF000080"), "rgba_op": Solid("#FF000080"), "named": Solid("wheat"), "omitted": Solid("black"), "omitted_op": Solid("black"),
         "opacity": Solid("red"), "current": Solid("black", current=True), "current_op": Solid("black", current=True),
         "var": Solid("red", pal=1), "var_op": Solid("red", pal=1),
     }[dp]
-    donor_op = 0.5 if dp in ("opacity", "current_op", "var_op", "rgba_op") else 1.0
+    donor_op = 0.5 if dp in ("opacity", "current_op", "var_op", "rgba_op", "omitted_op") else 1.0
     cpn = a["copy_paint"]
-    copy_paint = {
-        "blue": Solid("blue"), "same": donor_paint, "black": Solid("black"), "alpha": Solid("blue"), "current": Solid("black", current=True),
-        "var": Solid("blue", pal=2),
-        "lin_bbox": Linear("lg2", 0, 0, 1, 1, STOPS2),
-        "lin_user": Linear("lg2", *U(20, 10), *U(80, 70), STOPS2, units="userSpaceOnUse"),
-        "rad_bbox": Radial("rg2", 0.5, 0.5, 0.5, STOPS2),
-        "rad_focal_fr": Radial("rg2", 0.5, 0.5, 0.5, STOPS2, fx=0.35, fy=0.4, fr=0.1),
-    }[cpn]
+    def copy_paint_in(U_):
+        return {
+            "blue": Solid("blue"), "same": donor_paint, "black": Solid("black"), "alpha": Solid("blue"), "current": Solid("black", current=True),
+            "var": Solid("blue", pal=2),
+            "lin_bbox": Linear("lg2", 0, 0, 1, 1, STOPS2),
+            "lin_user": Linear("lg2", *U_(20, 10), *U_(80, 70), STOPS2, units="userSpaceOnUse"),
+            "rad_bbox": Radial("rg2", 0.5, 0.5, 0.5, STOPS2),
+            "rad_focal_fr": Radial("rg2", 0.5, 0.5, 0.5, STOPS2, fx=0.35, fy=0.4, fr=0.1),
+        }[cpn]
+
+    copy_paint, copy_paint_A = copy_paint_in(UB), copy_paint_in(U)
     tri_paint = Solid("green")
     if a.get("shared_grad"):
         # the very same (user-space) linear gradient on the blob of glyph A and on the triangle of glyph B
         lin = Linear("lg1", *U(30, 40), *U(80, 75), STOPS2, units="userSpaceOnUse")
-        tri_paint = Linear("lg9", *U(30, 40), *U(80, 75), STOPS2, units="userSpaceOnUse")
+        tri_paint = Linear("lg9", *UB(30, 40), *UB(80, 75), STOPS2, units="userSpaceOnUse")
         lin_shape_op = 1.0
         rad = Solid("orange")  # ... and no other gradient in glyph B (nothing else can take the gradient's id there)
     twin = a.get("twin", "none")
@@ -200,25 +214,29 @@ def mk(a):
         # about the user-space origin with the same largest factor, so after nanoemoji splits off the uniform part
         # the two gradients have *identical* geometry and differ in the residual transform only (a gradient-sharing
         # key that ignores the transform would merge them). Neither shape is a reused copy.
-        twin_paint = Radial("rg3", ox + 55 * k, oy + 130 * k, 40 * k, STOPS_YG, units="userSpaceOnUse", gt=aff.around(aff.sc(0.5, 1), ox, oy))
+        twin_in = lambda k_, ox_, oy_: Radial("rg3", ox_ + 55 * k_, oy_ + 130 * k_, 40 * k_, STOPS_YG, units="userSpaceOnUse", gt=aff.around(aff.sc(0.5, 1), ox_, oy_))
         if twin == "same_glyph":
-            tri_paint = twin_paint  # next to the oval, in glyph B
+            tri_paint = twin_in(kB, oxB, oyB)  # next to the oval, in glyph B
         else:
-            lin = twin_paint  # on the blob of glyph A: shares a document with the oval only when reuse links the glyphs
-        rad = Radial("rg1", ox + 55 * k, oy + 130 * k, 40 * k, STOPS_YG, units="userSpaceOnUse", gt=aff.around(aff.sc(1, 0.5), ox, oy))
+            lin = twin_in(k, ox, oy)  # on the blob of glyph A: shares a document with the oval only when reuse links the glyphs
+        rad = Radial("rg1", oxB + 55 * kB, oyB + 130 * kB, 40 * kB, STOPS_YG, units="userSpaceOnUse", gt=aff.around(aff.sc(1, 0.5), oxB, oyB))
     copy_op = 0.6 if cpn == "alpha" else (donor_op if cpn == "same" else 1.0)
     pl = a["place"]
     donor_d = P(od)
     if pl == "tiny":
         donor_d = P(od, aff.mul(aff.tr(2, 2), aff.sc(0.03)))
-        copy_d = P(od, aff.mul(aff.tr(20, 10), aff.sc(1.3)))
     elif pl == "tinycopy":
+        donor_d = P(od, aff.mul(aff.tr(2, 2), aff.sc(1.8)))
+
+    def copy_d_in(P, vb):
+      if pl == "tiny":
+        copy_d = P(od, aff.mul(aff.tr(20, 10), aff.sc(1.3)))
+      elif pl == "tinycopy":
         # the reverse: a large donor and a copy 45 times smaller that sits near the font-space origin. With a
         # user-space gradient on the copy the compensating inverse scales the gradient's geometry past int16, so
         # nanoemoji has to carry it in a wrapping transform instead (the OverflowError route of write_font)
-        donor_d = P(od, aff.mul(aff.tr(2, 2), aff.sc(1.8)))
         copy_d = P(od, aff.mul(aff.tr(12, 76), aff.sc(0.04)), nd=5)
-    else:
+      else:
         copy_d = P(od, PL[pl])
         if pl in ("near", "off05", "far"):
             dv = {"near": 0.04, "off05": 0.5, "far": 3.0}[pl]
@@ -226,6 +244,9 @@ def mk(a):
             m = re.match(r"M([-\d.e]+),([-\d.e]+) L([-\d.e]+),([-\d.e]+)(.*)$", copy_d)
             x = float(m.group(3)) + dv / s
             copy_d = f"M{m.group(1)},{m.group(2)} L{round(x, 3):g},{m.group(4)}{m.group(5)}"
+      return copy_d
+
+    copy_d, copy_d_A = copy_d_in(PB, vbB), copy_d_in(P, vb)
 
     donor = Shape(donor_d, donor_paint, opacity=donor_op, label="donor")
     blob = Shape(P(OUT["blob"], aff.tr(35, 30)), lin, opacity=lin_shape_op, label="blob-lin")
@@ -246,37 +267,37 @@ def mk(a):
         a_nodes = a_nodes + [Shape(P(OUT["quad"], aff.tr(42, 58)), lin, opacity=lin_shape_op, label="quad-same-lin")]
     where = a.get("where", "other")
     if where in ("same", "both"):
-        a_nodes = a_nodes + [Shape(copy_d, copy_paint, opacity=copy_op, label="copy-in-A")]
+        a_nodes = a_nodes + [Shape(copy_d_A, copy_paint_A, opacity=copy_op, label="copy-in-A")]
     A = Glyph((0xE000,), vb, a_nodes)
 
-    tri = Shape(P(OUT["tri"], aff.tr(40, 50)), tri_paint, label="tri")
-    ov = Shape(P(OUT["oval"], aff.tr(30, 40)), rad, label="oval-rad")
+    tri = Shape(PB(OUT["tri"], aff.tr(40, 50)), tri_paint, label="tri")
+    ov = Shape(PB(OUT["oval"], aff.tr(30, 40)), rad, label="oval-rad")
     copy = Shape(copy_d, copy_paint, opacity=copy_op, label="copy")
     if where == "same":  # glyph B keeps a shape in that slot, but not a copy of the donor
-        copy = Shape(P(OUT["quad"], aff.tr(40, 5)), Solid("blue"), label="not-a-copy")
+        copy = Shape(PB(OUT["quad"], aff.tr(40, 5)), Solid("blue"), label="not-a-copy")
     g = a["grp"]
     extra_glyphs = []
     if g == "none":
         b_nodes = [copy, tri, ov]
     elif g == "nested":
-        b_nodes = [copy, Group(0.6, [tri, Group(0.5, [ov, Shape(P(OUT["tri"], aff.tr(50, 20)), Solid("yellow"), label="tri2")])])]
+        b_nodes = [copy, Group(0.6, [tri, Group(0.5, [ov, Shape(PB(OUT["tri"], aff.tr(50, 20)), Solid("yellow"), label="tri2")])])]
     elif g == "gradgrp":
         b_nodes = [copy, Group(0.7, [ov, tri])]
     elif g == "reusedgrp":
         b_nodes = [Group(0.5, [copy, tri]), ov]
     elif g == "twocopies":  # a group whose members are both reused: a copy of the donor, then a copy of the triangle before the group
-        tri_b = Shape(P(OUT["tri"], aff.tr(12, 8)), Solid("orange"), label="tri-copy")
+        tri_b = Shape(PB(OUT["tri"], aff.tr(12, 8)), Solid("orange"), label="tri-copy")
         b_nodes = [tri, Group(0.5, [copy, tri_b]), ov]
     elif g == "siblings":
-        b_nodes = [Group(0.5, [copy, tri]), Group(0.8, [ov, Shape(P(OUT["tri"], aff.tr(50, 20)), Solid("yellow"), label="tri2")])]
+        b_nodes = [Group(0.5, [copy, tri]), Group(0.8, [ov, Shape(PB(OUT["tri"], aff.tr(50, 20)), Solid("yellow"), label="tri2")])]
     else:
         b_nodes = [copy, Group(0.5, [tri, ov])]
         if g == "emptyglyph":
             extra_glyphs.append(Glyph((0xE005,), vb, []))
     if a.get("grad_twice"):
-        b_nodes = b_nodes + [Shape(P(OUT["tri"], aff.tr(2, 58)), rad, label="tri-same-rad")]
+        b_nodes = b_nodes + [Shape(PB(OUT["tri"], aff.tr(2, 58)), rad, label="tri-same-rad")]
     seq = {1: (0xE001,), 2: (0xE001, 0xE002), 3: (0xE001, 0x200D, 0xE002)}[a["seqlen"]]
-    B = Glyph(seq, vb, b_nodes)
+    B = Glyph(seq, vbB, b_nodes)
     n = a["nglyphs"]
     glyphs = [A] if n == 1 else [A, B]
     if n == 3:
